@@ -101,6 +101,18 @@ def mk_ops(rng, B, rem_bits, leafs, which=None):
         if nb <= 127:
             st_ = 'z' * nb
             add('store_string(whole bytes, too many)', lambda b, st_=st_: b.store_string(st_), rc.bytes_to_bits(st_.encode()))
+    # bytes-like objects whose items are wider than a byte (array('H'/'I'/'Q'), a cast memoryview): their len() counts items, their content is bytes
+    import array
+    for code, width in (('H', 2), ('I', 4), ('Q', 8)):
+        k_fit = rem_bits // (8 * width)
+        k_over = k_fit + 1
+        for k, tag in ((k_fit, 'fits'), (k_over, 'too many')):
+            if 0 < k * width <= 200:
+                raw = rng.randbytes(k * width)
+                arr = array.array(code)
+                arr.frombytes(raw)
+                add(f'store_bytes(array {code}, {tag})', lambda b, arr=arr: b.store_bytes(arr), rc.bytes_to_bits(raw), may_refuse=True)
+                add(f'store_bytes(memoryview cast {code}, {tag})', lambda b, raw=raw, code=code: b.store_bytes(memoryview(raw).cast(code)), rc.bytes_to_bits(raw), may_refuse=True)
     if rem_bits < 267:
         a_ = M.Addr(value=('std', 0, rng.randbytes(32), None), how=0)
         add('store_address(std, no room)', lambda b, a_=a_: a_.store(b), a_.bits())
@@ -409,6 +421,8 @@ def random_history(R, B, rng, leafs, n_ops):
     trace = []
     for _ in range(n_ops):
         rem = 1023 - len(sh_bits)
+        if rem < 0:
+            break               # the builder is already over capacity (reported below as builder-over-capacity): nothing sensible can follow
         pool = mk_ops(rng, B, rng.choice([rem, rem, rng.randint(0, max(0, rem)), min(rem, 40), rem + 1]), leafs) + ref_ops(rng, B, leafs)
         op = rng.choice(pool)
         trace.append(op.name)
